@@ -16,7 +16,7 @@ RULE = ('cases: RDKit-sane molecule models (C N O S F Cl Br, charged centres, ri
         'conformer and with one (EmbedMolecule(randomSeed=drawn)): every node then has a finite position equal '
         'to the conformer position of its atom index; an independent RDKit construction of the model decides '
         'whether RDKit accepts the molecule at all; (b) after embed_3d_via_rdkit every node has a finite position '
-        'and every bonded pair lies within 1.4 x the sum of covalent radii (must fail in three embeddings while an '
+        'and every bonded pair lies within 1.4 x the sum of covalent radii (a quarter of the bonds, at least two, must fail in each of three embeddings while an '
         'independent embedding of the model passes, otherwise inconclusive); (c) forward_map_molecule puts every '
         'bead at sum(w x)/sum(w) over exactly its member atoms (1e-9) and translating all atoms by t translates '
         'every bead by t (10 %: polymers in which one weight-annotated fragment occurs several times, clause c only). Embedding failures of RDKit are counted as inconclusive. non-trivial = >=2 fragments '
@@ -305,9 +305,14 @@ def oracle(case):
                 expect(p is not None and len(p) == 3 and np.all(np.isfinite(p)), 'embed:position-missing',
                        lambda: '%s: node %r has position %r' % (what, n, p))
             bad = long_bonds(g2)
-            if not bad:
+            # coordinates on the wrong atoms stretch most bonds; one or two long bonds are a strained geometry of
+            # RDKit's stochastic embedding (small fused rings), which says nothing about the property
+            if len(bad) < max(2, 0.25 * g2.number_of_edges()):
+                if bad:
+                    note('strained_embedding_inconclusive')
+                else:
+                    note('embeddings_checked')
                 worst = None
-                note('embeddings_checked')
                 break
             worst = (bad, g2.number_of_edges())
         if worst is not None:
